@@ -204,20 +204,34 @@ def r_C27(root):
                         rebound = [fi_.cfg.nodes[d] for d in ds if fi_.cfg.nodes[d].kind != "entry"]
                         ob("C27", "C27.b", rel, qualname(c), "model_params=%s is the caller's parameter, unchanged" % v.id, not rebound)
                         if rebound: out.append(Finding("C27", "C27.b", rel, qualname(c), " ".join(ast.unparse(rebound[0].ast).split())[:100], "the parameters forwarded to the imported model are re-built on the way (%s is re-bound before the call): the imported model does not see exactly the parameters of the load" % v.id, witness="two languages registered by file pattern; the importing language declares a parameter the imported one does not"))
-    # ---- C27.c  every loaded model gets the parameters of the load before any user callback sees it
-    for q in ("TextXMetaModel.model_from_str.kwargs_callback", "TextXMetaModel.internal_model_from_file.kwargs_callback"):
-        fn = find(mm, q); fi = sem.info(fn); g = fi.cfg; inst += 1
-        sets = [n for n in g.nodes if n.kind == "stmt" and isinstance(n.ast, ast.Assign) and any(isinstance(tg, ast.Attribute) and tg.attr == "_tx_model_params" for tg in n.ast.targets)]
-        cbs = [n for n in g.nodes if n.ast is not None and n.kind in ("stmt", "return") and any(isinstance(c.func, ast.Name) and "callback" in c.func.id for c in calls(n.ast))]
-        okc = bool(sets)
-        why = "the model parameters are never attached"
-        for st in sets:
-            val = fi.text(st.ast.value, at=st.ast).replace(" ", "")
-            if val not in ("ModelParams(kwargs)", "model_params"): okc = False; why = "the attached parameters are %s, not the parameters of this load" % val
-            gs = [a for a, pol in fi.atoms_at(st.ast)]
-            if any("_tx_metamodel" not in a for a in gs): okc = False; why = "the parameters are attached only under %s" % [a for a in gs if "_tx_metamodel" not in a][0]
-        # order: the first callback call must come after the assignment in program order on the attaching path
-        if sets and cbs and not all(s_.id < c_.id for s_ in sets for c_ in cbs): okc = False; why = "the user callback runs before the parameters are attached"
+    # ---- C27.c  every loaded model gets the parameters of the load before any user callback sees it: by evaluation (sa/pyeval.py)
+    #      of the two pre-reference-resolution closures on a textX model and on a foreign object, with a recording user callback
+    from sa import pyeval as _pe
+    for q, pname in (("TextXMetaModel.model_from_str.kwargs_callback", "kwargs"), ("TextXMetaModel.internal_model_from_file.kwargs_callback", "model_params")):
+        fn = find(mm, q); inst += 1
+        p0_ = fn.args.args[0].arg
+        fns_ = {k_: v_ for k_, v_ in helper_functions(root, "textx/metamodel.py", q).items() if k_ != "kwargs_callback"}
+        why = None
+        for is_textx in (True, False):
+            for with_cb in (True, False):
+                given = {"outDir": "/o"} if pname == "kwargs" else {".kind": "model-params", ".tag": "params of this load"}
+                seen_ = []
+                other = {".kind": "model"} if is_textx else {".kind": "foreign"}
+                if is_textx: other["._tx_metamodel"] = {".kind": "metamodel"}
+                cb = _pe.PyFn(lambda m_: seen_.append(m_.get("._tx_model_params"))) if with_cb else None
+                env = {"__functions__": fns_, p0_: other, pname: given, "ModelParams": _pe.PyFn(lambda *a, **k: {".kind": "ModelParams", ".store": dict(*a, **k)}),
+                       "pre_ref_resolution_callback": cb, "callback": cb, "self": {".kind": "metamodel"}, "TextXMetaModel": _pe.ClassRef("TextXMetaModel")}
+                try: _pe.run_block(fn.body, env); err_ = None
+                except _pe.Raised as r_: err_ = "raises " + r_.cls
+                except _pe.Unsupported as u_: raise AnalysisError("%s: outside the evaluated subset: %s" % (q, u_))
+                got = other.get("._tx_model_params")
+                def is_load_params(v_): return (isinstance(v_, dict) and v_.get(".kind") == "ModelParams" and v_.get(".store") == given) if pname == "kwargs" else (v_ is given)
+                if err_: why = why or "the callback %s" % err_
+                elif is_textx and not is_load_params(got): why = why or "a textX model ends up with %s instead of the parameters of this load" % ("no parameters" if got is None else "other parameters")
+                elif not is_textx and got is not None: why = why or "an object that is not a textX model gets model parameters attached"
+                elif with_cb and len(seen_) != 1: why = why or "the user callback runs %d times" % len(seen_)
+                elif with_cb and is_textx and not is_load_params(seen_[0]): why = why or "the user callback runs before the parameters are attached (it sees %s)" % ("none" if seen_[0] is None else "others")
+        okc = why is None
         ob("C27", "C27.c", "textx/metamodel.py", q, "_tx_model_params attached (for every textX model) before the user callback", okc)
         if not okc: out.append(Finding("C27", "C27.c", "textx/metamodel.py", q, "kwargs_callback", why + ": callbacks and scope providers that read model._tx_model_params see nothing or another load's parameters"))
     return inst, out
